@@ -772,8 +772,13 @@ class TrajectoryStore:
                 raise ValueError(f'Data field "{name}" is None')
 
         # Maintain count of trajectories in store for indexing.
+        # A store linked to files keeps its trajectories there: one that is
+        # larger than the whole cache is written like any other and simply not
+        # cached. (An in-memory store has nowhere else to put it: the cache
+        # refuses it.)
         saved_index = self._next_index
-        self._trajectories[saved_index] = trajectory
+        if self.base_file is None or trajectory.nbytes <= self._trajectories.maxsize:
+            self._trajectories[saved_index] = trajectory
         self._next_index += 1
         if self.indexable is None:
             self.indexable = has_flight_id
@@ -781,11 +786,12 @@ class TrajectoryStore:
         # If this is the first trajectory added to the store, we might need to
         # create the NetCDF files.
         if self._file_creation_pending:
-            self._create()
+            self._create(trajectory)
             self._file_creation_pending = False
 
-        # Write the trajectory data to the output NetCDF file.
-        self._write_trajectory(saved_index)
+        # Write the trajectory data to the output NetCDF file. (Not via the
+        # cache: the trajectory need not be in it.)
+        self._write_data(traj=trajectory, index=saved_index)
 
         # Whenever we add a trajectory, the trajectory index is no longer up to
         # date. For efficiency, we do not reindex immediately, deferring either
@@ -958,7 +964,7 @@ class TrajectoryStore:
         """Iterator over trajectories in store in index order."""
         return _TrajectoryStoreIterator(self)
 
-    def _create(self):
+    def _create(self, proto: Trajectory | None = None):
         """Create a new NetCDF file (or files) for writing trajectories.
 
         There is one NetCDF group per field set, and more than one field set
@@ -970,11 +976,12 @@ class TrajectoryStore:
 
         # We cannot create the NetCDF file until we know what field sets are
         # involved. For that we need at least one trajectory.
-        assert len(self._trajectories) > 0
+        assert proto is not None or len(self._trajectories) > 0
 
         # Get a prototype trajectory: all trajectories in the store must have
         # the same field sets, so it doesn't matter which one we take.
-        proto = next(iter(self._trajectories.values()))
+        if proto is None:
+            proto = next(iter(self._trajectories.values()))
 
         # Determine the field sets stored in the base NetCDF file (those not in
         # associated files).
